@@ -235,13 +235,29 @@ class Scenario:
     def final_versions(self):
         return self.versions_at(len(self.ops))
 
-    def judged_ops(self):
-        """indices of the loads compared with a fresh process: every load without an injected fault for synthetic
-        libraries (cheap), the final one otherwise"""
-        last = len(self.ops) - 1
+    def spec_ops(self):
+        """loads judged against the reference loader (no process needed): every load without an injected fault
+        for synthetic libraries, the final one otherwise"""
         if self.kind == "synth":
             return [j for j, op in enumerate(self.ops) if op["op"] == "load" and not op.get("fault")]
-        return [last]
+        return [len(self.ops) - 1]
+
+    def judged_ops(self):
+        """loads that also get their own fresh process: for synthetic libraries the first two loads after every
+        change of state (edit, touch, load_metadata, interrupted load; the start counts) and the last one; the
+        final load otherwise"""
+        if self.kind != "synth":
+            return [len(self.ops) - 1]
+        out, seen = [], 0
+        for j, op in enumerate(self.ops):
+            if op["op"] == "load" and not op.get("fault"):
+                if seen < 2:
+                    out.append(j)
+                seen += 1
+            else:
+                seen = 0
+        last = [j for j in self.spec_ops()][-1:]
+        return sorted(set(out + last))
 
 
 def write_lib(root, files, versions, real_libdir, mtimes=None):
@@ -1202,10 +1218,14 @@ def run_scenarios(ctx, scs, src, label, zygote=False):
             if "error" in f:
                 ctx.broken("runner:c12:" + lab, "fresh run for step %d: %s" % (j, f.get("error")))
                 continue
-            ctx.count("judged-load:" + coarse(h["ops"][j]["res"]))
+            ctx.count("load-vs-fresh-process:" + coarse(h["ops"][j]["res"]))
             if judge(ctx, sc, j, h["ops"][j], f["ops"][0], lab):
                 nviol += 1
-            if judge_spec(ctx, sc, j, f["ops"][0], views[idx], "fresh") or judge_spec(ctx, sc, j, h["ops"][j], views[idx], "history"):
+            if judge_spec(ctx, sc, j, f["ops"][0], views[idx], "fresh"):
+                nviol += 1
+        for j in sc.spec_ops():
+            ctx.count("load-vs-reference-loader")
+            if judge_spec(ctx, sc, j, h["ops"][j], views[idx], "history"):
                 nviol += 1
         correspond(ctx, sc, h, out[idx] if out else None, views[idx], lab)
     if out is None:
@@ -1268,22 +1288,25 @@ def run(ctx):
         "covered by the subprocess oracles and the model correspondence only",
         "a change of a file's `imports` needs basic.load_metadata() before the next load (known finding, generated and keyed)",
         "the Python package smt/ of the repository is shadowed by site-packages and is not imported in histories",
+        "no theorem bounds the model's fuel; the runs use fuel 400 and would show a model answer `fuel` as a correspondence break",
+        "for real theories the reference loader's per-item ok flags come from the implementation itself (oracle (c) is "
+        "independent there only for import order, limit logic and presence/absence of item names)",
         "a file replaced by DIFFERENT content with EXACTLY the mtime it was cached under is outside the property (a timestamp cache "
         "cannot see it; 'a changed file is re-read' presupposes a changed timestamp) and is not generated; any other mtime, older or "
         "newer, must cause a re-read and is generated"]
     corpus = load_corpus(ctx)
-    if corpus:
-        run_scenarios(ctx, corpus, src, "corpus")
     rng = ctx.rng("histories")
     heavy = heavy_histories(src, ctx.tier)
     bat = battery(ctx.rng("battery"))
     for sc in bat[:1] + bat[7:8]:
         ctx.sample({"kind": sc.kind, "ops": sc.ops, "note": sc.note})
-    run_scenarios(ctx, bat, src, "battery", zygote=True)
-    scs = gen_real(rng, src, ctx.scale(2, 22), heavy) + gen_copy(rng, src, ctx.scale(1, 10)) + gen_synth(rng, ctx.scale(4, 38))
-    for sc in scs[:2] + scs[-2:]:
+    rnd = gen_real(rng, src, ctx.scale(1, 22), heavy) + gen_copy(rng, src, ctx.scale(1, 10)) + gen_synth(rng, ctx.scale(6, 38))
+    for sc in rnd[:2] + rnd[-2:]:
         ctx.sample({"kind": sc.kind, "ops": sc.ops, "note": sc.note})
-    run_scenarios(ctx, scs, src, "gen")
+    everything = corpus + bat + rnd
+    # synthetic libraries: forked from one process that has imported the loader; real theories: cold processes
+    run_scenarios(ctx, [sc for sc in everything if sc.kind == "synth"], src, "synthetic", zygote=True)
+    run_scenarios(ctx, [sc for sc in everything if sc.kind != "synth"], src, "real")
 
 
 def replay(ctx, rp):
@@ -1298,25 +1321,35 @@ def replay(ctx, rp):
 
 MANIFEST = {
     "text": "Lean theorems about an executable model of the loader state machine (per-user cache with timestamps and dependency "
-            "timestamps, global theory, fresh_theory blocks, import-once module side effects, injected faults), for every world "
-            "(parser, lazy-import table, module bodies), library, timestamps and fuel: after every history of loads, interrupted loads, "
-            "module imports, os.utime and load_metadata, load_theory(n, limit) on a healthy library returns exactly what the "
-            "specification says (load_eq_spec: same outcome, same item list; missing limit reported; never a failure caused by "
-            "the history); cycles are reported by every load with nothing cached; a file with a changed timestamp is parsed again. "
-            "Module/import/lazy tables are regenerated from the sources each run and checked (acyclic, orders exist, module loads "
-            "exist). The model is tied to logic/basic.py by scripted histories run in subprocesses: outcome of every step, files "
-            "parsed, modules executed and the items of theory.thy must equal the model's; every history is also judged against a "
-            "fresh process and against an independent reference loader.",
-    "note": "Trusted: Lean kernel, propext/Classical.choice/Quot.sound, the harness (tracing wrappers, ast scan of module-level "
-            "imports; function-level imports not followed), the reference loader. Item contents are opaque (parse result = function "
-            "of item and visible items). Theorems cover content-preserving histories; edits of files that keep the imports "
-            "(including edits of indirectly imported files and new content with an older mtime, fix C12-3) are covered by the "
-            "deterministic battery (subprocess oracles, model correspondence), by changed_file_reread (dependency timestamps recorded "
-            "for all transitive imports; older timestamp = changed) and by one concrete Lean instance, not by a general theorem. "
-            "Same-mtime-different-content is out of scope. "
-            "Known finding: edited `imports` are not re-read without load_metadata (stale_imports_counterexample). Model fuel: "
-            "theorems hold for every fuel, with 'ran out of fuel' as an explicit outcome; sufficiency of fuel is not proved. "
-            "Model = code with fixes C12-1..4; single user (master).",
+            "timestamps, global theory, fresh_theory blocks, import-once module side effects, injected faults, extensions that "
+            "raise when cached items are re-applied), for every world (parser, extension clashes, lazy-import table, module "
+            "bodies), library, timestamps and fuel. SCOPE OF THE THEOREMS: histories that KEEP THE CONTENT of every file "
+            "(loads, interrupted loads, module imports, os.utime forwards/backwards, load_metadata). For those: load_eq_spec "
+            "(healthy library: no parse exception, no clash between items, acyclic, orders exist) -- the outcome of "
+            "load_theory(n, limit) is the specification's (same item list, 'limit not found' exactly when specified, never a "
+            "failure caused by the history); load_eq_spec_partial (any library: a normal return carries the specified theory); "
+            "import_clash_reported, missing_limit_reported, cycle_reported (every load, nothing cached); changed_file_reread: a "
+            "file whose TIMESTAMP differs (older or newer) from the cached one is parsed again and the new entry records the "
+            "timestamps of ALL transitive imports. NOT covered by a general theorem: histories in which file contents change "
+            "(fix C12-3, the `depends` list, has only changed_file_reread's last clause and one concrete instance "
+            "indirect_edit_older_mtime_example); these are judged by the deterministic battery of scripted histories. "
+            "FUEL: every theorem admits the outcome 'the model ran out of fuel'; no theorem says that some amount of fuel "
+            "suffices (the model's termination is not proved); every run confirms on its own histories that fuel 400 sufficed. "
+            "Tables (import graph, lazy imports, module -> load_theory calls) are regenerated from the sources each run and "
+            "checked. Tie to logic/basic.py: scripted histories in subprocesses; every load is judged (a) against a fresh "
+            "process on the files of that moment, (c) against a reference loader on observable names and exception classes "
+            "only, and (b) compared with the model (outcome class, files parsed, modules executed, item list).",
+    "note": "Trusted: Lean kernel, propext/Classical.choice/Quot.sound, the harness, the reference loader. Item contents are opaque. "
+            "The property oracles (a) and (c) use only what a user can observe (exception class, names and canonical dump of "
+            "theory.thy); the tags threaded through wrapped internals (load_json_data, parse_item, get_extension, "
+            "unchecked_extend) serve the model correspondence only and are dropped, with a note in the evidence, when a "
+            "refactoring bypasses them. For REAL theories the reference loader takes the per-item ok flags from the "
+            "implementation's own run, so oracle (c) is independent there only for import order, limit logic and "
+            "presence/absence of item names; for synthetic libraries it is fully independent. Synthetic-library processes "
+            "are forked from one process that has imported the loader (state of a fresh process after `from logic import "
+            "basic`); real-library histories run in cold processes. Same-mtime-different-content is out of scope. Known "
+            "finding: edited `imports` are not re-read without load_metadata (stale_imports_counterexample). Model = code with "
+            "fixes C12-1..4; single user (master).",
     "design_ref": "DESIGN.md 4/C12",
 }
 FINDINGS = [
